@@ -97,6 +97,77 @@ def exchange_order_oracle(res, prop="C01"):
             w.violate(prop, "server-saw-malformed-request", {"wire": e[3], "why": e[5]})
 
 
+def decoded_request_oracle(res, prop="C01"):
+    """What each server decoded must be the request its caller made: method, a target
+    naming the caller's token, exactly one of each pseudo-header first (HTTP/2), and the
+    caller's own header fields with their values, in order, with nothing foreign added.
+    (An HPACK table that has lost a header block, or bytes of two requests interleaved on
+    one HTTP/1.1 connection, make the server answer a request nobody made.)"""
+    w = res.world
+    led = w.ledger
+    px = (w.scn.get("pool") or {}).get("proxy") or {}
+    allowed = {b"host", b"content-length", b"transfer-encoding", b"proxy-authorization",
+               b"accept", b"connection"}
+    allowed |= {str(k).lower().encode() for k, v in px.get("headers", [])}
+
+    def check(proto, tok, method, target, headers, pseudo):
+        call = w.calls.get(tok)
+        if call is None:
+            return None
+        op = call["op"]
+        if op.get("target") is not None or op.get("illegal"):
+            return None
+        if method != op.get("method", "GET").encode():
+            return "method"
+        if (b"/t/" + tok) not in target:
+            return "target"
+        if proto == "h2":
+            names = [k for k, v in pseudo]
+            if sorted(names) != [b":authority", b":method", b":path", b":scheme"]:
+                return "pseudo-headers"
+        sent = [(bytes(k).lower(), bytes(v)) for k, v in call["headers"]]
+        got = [(bytes(k).lower(), bytes(v)) for k, v in headers]
+        if proto == "h2":
+            sent = [h for h in sent if h[0] not in (b"host", b"transfer-encoding", b"connection")]
+        i = 0
+        for h in got:
+            if i < len(sent) and h == sent[i]:
+                i += 1
+            elif h[0] not in allowed:
+                return "foreign-header"
+        if i < len(sent):
+            return "caller-header-missing-or-altered"
+        return None
+
+    for e in led.of("h2_req"):
+        tok = e[6]
+        if tok is None:
+            continue
+        hs = list(e[7])
+        k = 0
+        while k < len(hs) and hs[k][0].startswith(b":"):
+            k += 1
+        pseudo, rest = hs[:k], hs[k:]
+        if any(n.startswith(b":") for n, v in rest):
+            why = "pseudo-headers"
+        else:
+            d = dict(pseudo)
+            why = check("h2", tok, d.get(b":method", b""), d.get(b":path", b""), rest, pseudo)
+        if why:
+            w.violate(prop, "server-decoded-a-different-request:h2:" + why,
+                      {"token": tok, "decoded": hs})
+            return
+    for e in led.of("srv_req"):
+        tok = e[6]
+        if tok is None:
+            continue
+        why = check("h1", tok, e[7], e[8], list(e[9]), ())
+        if why:
+            w.violate(prop, "server-decoded-a-different-request:h1:" + why,
+                      {"token": tok, "decoded": (e[7], e[8], e[9])})
+            return
+
+
 # ---------------------------------------------------------------------------
 # ownership walk (C04 / C06)
 
